@@ -65,6 +65,12 @@ def run_kind(kind, outdir, inp):
     if kind == "proto":
         iface = kj.random_proto_interface(_r.Random(inp["iface_seed"]))
         return generate(kind, outdir, iface=iface, name=inp["name"], copy_other=bool(inp.get("copy_other")))
+    if kind in ("uml_mut", "uml_cs_mut"):
+        # a mutant of a shipped class diagram (deterministic in mut_seed), through the real umlgen.GenerateUML
+        from . import umlsynth
+        cd = umlsynth.load(inp["name"])
+        umlsynth.mutate(_r.Random(inp["mut_seed"]), cd, inp["mut_n"])
+        return umlsynth.generate(cd, outdir, "cpp" if kind == "uml_mut" else "csharp", bool(inp["ns"]))
     return generate(kind, outdir, name=inp["name"], ns=inp["ns"])
 
 
